@@ -148,9 +148,12 @@ CLAIMED = {
     'C05': dict(
         text='Children statement of mark_job_complete and recompute statement of commit_batch_update verified pointwise for all rows: exactly the children / the id range are touched, n_pending_parents is decremented resp. recomputed '
         'as the number of non-terminal parents (aggregates shown to range over exactly the job\'s edges with the right summands), Ready iff no pending parent remains, cancelled set iff a terminal parent did not succeed; '
-        '_create_jobs fragments: Ready only in update 1 without parents, n_pending_parents = #parents, one job_parents row per parent.',
-        note=COMMON_NOTE + 'Assumed: each procedure/trigger invocation is atomic (serialisable isolation, justified by the lock-discipline obligations); MySQL NULL/boolean semantics as encoded in vc/sqlvc.py; integer column widths sufficient; SQL cannot be executed in this sandbox so counter-models are rows (VIOLATION ... no-failing-input-found). ' + 'Pointwise obligations lift to invariant N by paper lemmas L1/L2. _create_jobs is verified on two fragments of its loop body (inputs symbolic, rest dropped).',
-        technique='procedure contracts (pointwise statement semantics, aggregate predicates) on real SQL + fragment contracts on real Python, sqlvc/pyvc -> z3',
+        '_create_jobs (one fragment, counter record .. job_parents loop): the stored row is Ready only in update 1 without parents, stored n_pending_parents = #parents however computed, one job_parents row per parent; '
+        'parent ids: validate.handle_job_backwards_compatibility keeps the legacy parent_ids key absolute and never rewrites in_update_parent_ids (all dict shapes), every job passes through it, _create_jobs combines absolute and shifted in-update ids; '
+        'canceller: the three job-selection generators executed on the real AST with their embedded SQL evaluated by sqlvc: every yielded row is a jobs row in the loop\'s state, never always-run, marked cancelled or in a cancelled group, and is the job completed as Cancelled; '
+        'first reads of mark_job_complete / commit_batch_update take locks.',
+        note=COMMON_NOTE + 'Assumed: each procedure/trigger invocation is atomic (serialisable isolation, justified by the lock-discipline obligations); MySQL NULL/boolean semantics as encoded in vc/sqlvc.py; integer column widths sufficient; SQL cannot be executed in this sandbox so counter-models are rows (VIOLATION ... no-failing-input-found). ' + 'Pointwise obligations lift to invariant N by paper lemmas L1/L2. _create_jobs is verified on one fragment of its loop body plus the parent_ids statement (inputs symbolic, rest dropped). The legacy parent_ids key is read as batch job ids (the pre-update job API). Canceller: the queries of one generator iteration are evaluated over one database state (group cancellation, jobs.cancelled = 1, always_run are monotone); LIMIT only drops rows; completeness of the selection (liveness) is not claimed.',
+        technique='procedure contracts (pointwise statement semantics, aggregate predicates) on real SQL + function/fragment contracts on real Python with embedded SQL bound row-wise by sqlvc, sqlvc/pyvc -> z3',
         engine='sqlvc+pyvc',
         design_ref='7/C05',
     ),
